@@ -256,8 +256,13 @@ CLAIMS = {
 
 # Rules added after the first version of a claim; appended so that MANIFEST.json names every rule that decides.
 _ALSO = {
-    "C02": ("the empty list is printed as `()` under every printer option value; on the leading-digit path the token "
-            "reaches the numeric sub-parser without a data-dependent pre-filter.", None),
+    "C01": ("text reaches an io sink only through write_all / write_fmt (no short write can lose part of the printed "
+            "text, for the io-writer and Display entry points); a token `+c` / `-c` with c an R7RS <sign subsequent> "
+            "character (138 cases) is read as a symbol, as the printer writes such names verbatim.", None),
+    "C02": ("the empty list is printed as `()` under every printer option value; with the nil-as-false option nil is "
+            "written exactly as `false` is under every boolean syntax; text reaches an io sink only through write_all / "
+            "write_fmt; on the leading-digit path the token reaches the numeric sub-parser without a data-dependent "
+            "pre-filter.", None),
     "C03": ("the reader's lookahead byte is discarded only right after a peek that returned a byte (typestate over all "
             "abstract paths, with a fixpoint over functions that start by discarding); helpers the counter logic is split "
             "into (enter/leave style) are summarised by outcome (result variant, delta, tested) and accounted for at each "
@@ -265,7 +270,9 @@ _ALSO = {
             "call-graph SCC + dataflow analysis of the depth counter (path-sensitive in Result/Option variants, with helper "
             "summaries), lookahead typestate analysis, panic-site inventory with guard discharge, natural-loop progress "
             "analysis, conditional constant propagation over the first input byte"),
-    "C04": ("tuple / tuple-struct / tuple-variant deserialization checks the declared arity.", None),
+    "C04": ("every collector method records exactly one element per call; strings, byte vectors and identifiers are "
+            "handed to the visitor as borrowed data (needed by borrowing targets such as &str); deserialize_newtype_struct "
+            "passes a deserializer over the very same value for all 15 value kinds.", None),
     "C05": ("the u64/i64 boundary of integer literals (|i64::MIN| accepted as negative, one more goes to the float path) "
             "is decided on the abstract paths of the number tail.", None),
     "C07": ("no buffering writer (whose pending bytes would be flushed in Drop with the error discarded) is interposed on "
@@ -283,8 +290,14 @@ _ALSO = {
             "and token kinds extracted from the text parser"),
     "C10": ("the dotted-tail handling of the list twins maps each tail token to the same outcome.", None),
     "C11": ("for a quote shorthand the end position handed to Datum::quotation is read before the quoted datum is parsed; "
-            "reader fields are identified by type and accessors by signature.", None),
-    "C12": ("the fused flag lives in the parser, not in the per-call iterator object.", None),
+            "reader fields are identified by type and accessors by signature; the stream's line/column counter and the "
+            "slice's recount special-case exactly the same byte values (only LF) and advance for each of the others (256 "
+            "byte values).", None),
+    "C12": ("the fused flag lives in the parser, not in the per-call iterator object, and no function reachable from the "
+            "iterator entry points (including value_iter / datum_iter) clears it.", None),
+    "C16": ("a hand-written Drop for a spine type may skip the detaching loop only on a test of the chain's own shape "
+            "(a branch on anything else that returns with the tail attached hands the chain to the recursive drop glue); "
+            "the cdr of a cell reached through a car is an element's payload, not the spine.", None),
     "C15": ("the tail handling of the list traversals maps each cdr shape to the documented outcome.", None),
 }
 for _k, (_t, _tech) in _ALSO.items():
